@@ -221,3 +221,32 @@ func (f *Font) Kern(a, b int) (kern int, found bool, err error) {
 	}
 	return int(v / 64), true, nil
 }
+
+// VMetrics returns ascent, descent (positive below the baseline), line height,
+// x height and cap height in font units as x/image derives them from hhea and
+// OS/2 (exact at scale 1 for values below 2^25/upm).
+func (f *Font) VMetrics() (ascent, descent, height, xHeight, capHeight int, err error) {
+	m, err := f.F.Metrics(&f.buf, fixed.I(f.Upm), font.HintingNone)
+	if err != nil {
+		return 0, 0, 0, 0, 0, err
+	}
+	for _, v := range []fixed.Int26_6{m.Ascent, m.Descent, m.Height, m.XHeight, m.CapHeight} {
+		if v%64 != 0 {
+			return 0, 0, 0, 0, 0, fmt.Errorf("ximg: metric %d not integral", v)
+		}
+	}
+	return int(m.Ascent / 64), int(m.Descent / 64), int(m.Height / 64), int(m.XHeight / 64), int(m.CapHeight / 64), nil
+}
+
+// Post returns x/image's view of the post table header (nil without table).
+func (f *Font) Post() *xsfnt.PostTable { return f.F.PostTable() }
+
+// Name returns the first name record x/image can decode for the id
+// (Macintosh Roman records come first, then Windows UCS-2).
+func (f *Font) Name(id int) (string, bool, error) {
+	s, err := f.F.Name(&f.buf, xsfnt.NameID(id))
+	if err == xsfnt.ErrNotFound {
+		return "", false, nil
+	}
+	return s, err == nil, err
+}
